@@ -71,6 +71,22 @@ func main() {
 	}
 }
 
+var mxjSrc string
+
+// mxjSrcDir: the directory the worker's mxj sources come from (the replace directive of go.mod; /repo).
+func mxjSrcDir() string {
+	if mxjSrc == "" {
+		cmd := exec.Command("go", "list", "-m", "-f", "{{.Dir}}", "github.com/clbanning/mxj/v2")
+		cmd.Env = goEnv()
+		out, err := cmd.Output()
+		if err != nil {
+			fail2("go list -m (mxj source directory): %v", err)
+		}
+		mxjSrc = strings.TrimSpace(string(out))
+	}
+	return mxjSrc
+}
+
 func seedEnv() int64 {
 	if s := os.Getenv("VERIF_SEED"); s != "" {
 		if v, err := strconv.ParseInt(s, 10, 64); err == nil {
@@ -102,6 +118,7 @@ func build(dir string, race bool) (string, error) {
 func run(id, tier string) int {
 	t0 := time.Now()
 	seed := seedEnv()
+	mxjSrcDir()
 	wd, _ := os.Getwd()
 	dir := filepath.Join(wd, ".build", id)
 	os.RemoveAll(dir)
@@ -181,7 +198,7 @@ func run(id, tier string) int {
 				cmd.Cancel = func() error { return cmd.Process.Signal(syscall.SIGQUIT) }
 				cmd.WaitDelay = 10 * time.Second
 				cmd.Dir = wd
-				cmd.Env = append(os.Environ(), "GOCOVERDIR="+filepath.Join(dir, "cov"),
+				cmd.Env = append(os.Environ(), "VERIF_MXJ_SRC="+mxjSrcDir(), "GOCOVERDIR="+filepath.Join(dir, "cov"),
 					"GORACE=halt_on_error=0 log_path="+filepath.Join(dir, "race-"+tag),
 					"VERIF_SCRATCH="+filepath.Join(dir, "scratch-"+tag), "GOTRACEBACK=all")
 				of, _ := os.Create(filepath.Join(dir, tag+".out"))
@@ -574,7 +591,7 @@ func replay(path string) int {
 	}
 	fmt.Printf("replaying %s case %d (recorded: class=%s: %s)\n", r.Property, r.Index, r.Class, r.Msg)
 	cmd := exec.Command(worker, args...)
-	cmd.Env = append(os.Environ(), "VERIF_SCRATCH="+filepath.Join(dir, "scratch"))
+	cmd.Env = append(os.Environ(), "VERIF_MXJ_SRC="+mxjSrcDir(), "VERIF_SCRATCH="+filepath.Join(dir, "scratch"))
 	cmd.Stdout, cmd.Stderr = os.Stdout, os.Stderr
 	if err := cmd.Run(); err != nil {
 		return 1
